@@ -106,6 +106,15 @@ Theorem C07_ingress_rl_zone_name_injective : forall ns1 n1 ns2 n2,
 Proof. exact ingress_rl_zone_name_injective. Qed.
 Print Assumptions C07_ingress_rl_zone_name_injective.
 
+(* The repairs proposed for F32 (JWT redirect location of a minion added once, not once per path) and
+   F12 (a VirtualServerRoute attached once, however many routes reference it) are both
+   "append unless already present": for EVERY sequence of names the result has no duplicate and
+   exactly the same members. *)
+Theorem C07_collect_once_nodup : forall xs,
+    NoDup (collect_once xs) /\ (forall y, In y (collect_once xs) <-> In y xs).
+Proof. exact collect_once_nodup. Qed.
+Print Assumptions C07_collect_once_nodup.
+
 (* ---------------------------------------------------------------- (c) refutations *)
 
 (* FULL STATEMENT (false): forall DNS components, ingress_upstream_name is injective. *)
